@@ -30,4 +30,27 @@ Ltac q_close :=
         | exfalso; lra
         | exfalso; match goal with H : ~ _ == _ |- _ => apply H; lra end
         | exfalso; match goal with H : ~ _ == _, H2 : ~ _ == _ |- _ => first [apply H; lra | apply H2; lra] end ].
+(* a <= b and b <= a: replace a by b (a boundary case of a max / min taken in the other order) *)
+Ltac q_sandwich :=
+  repeat match goal with
+  | H1 : ?a <= ?b, H2 : ?b <= ?a |- _ =>
+      let E := fresh "S" in assert (E : a == b) by lra; clear H1 H2; try rewrite E
+  end.
+(* two divisors that are equal as rationals but written differently: make them one term, so that the quotients are the same atoms *)
+Ltac q_inv_unify :=
+  unfold Qdiv in *;
+  repeat match goal with
+  | |- context [ / ?d1 ] =>
+      match goal with
+      | |- context [ / ?d2 ] =>
+          tryif constr_eq d1 d2 then fail else (let E := fresh "D" in assert (E : d1 == d2) by lra; rewrite E; clear E)
+      end
+  end.
+Ltac q_eq_close :=
+  first [ reflexivity | lra | exfalso; lra | exfalso; match goal with H : ~ _ == _ |- _ => apply H; lra end
+        | q_sandwich; first [ reflexivity | lra | field; first [ assumption | lra | intro; lra ] ]
+        | field; first [ assumption | lra | intro; lra ]
+        | q_inv_unify; first [ reflexivity | lra ] ].
+(* for ties whose value is a rational: the statement is ==, every comparison inside is decided, the rest is arithmetic *)
+Ltac tie_q := cbv beta zeta; unfold Qleb, Qltb, Qeqb, Qmax', Qmin', Qabs' in *; q_split; q_facts; cbn [andb orb negb]; q_eq_close.
 Ltac tie_sem := cbv beta zeta; unfold Qleb, Qltb, Qeqb, Qmax', Qmin', Qabs' in *; q_split; q_facts; cbn [andb orb negb]; q_close.
